@@ -191,8 +191,11 @@ func (c ColMap[K, V]) Prepare() error {
 
 // Infer ensures Inferable column propagation.
 func (c *ColMap[K, V]) Infer(t ColumnType) error {
-	keytype, valtype, hascomma := strings.Cut(string(t.Elem()), ",")
-	if !hascomma || strings.ContainsRune(valtype, ',') {
+	keytype, valtype, hascomma := cutTypes(string(t.Elem()))
+	if !hascomma {
+		return errors.New("invalid map type")
+	}
+	if _, _, more := cutTypes(valtype); more {
 		return errors.New("invalid map type")
 	}
 	if v, ok := c.Keys.(Inferable); ok {
@@ -208,4 +211,30 @@ func (c *ColMap[K, V]) Infer(t ColumnType) error {
 		}
 	}
 	return nil
+}
+
+// cutTypes slices "K, V" around the first comma that is not nested in
+// parentheses or quotes, because K and V can have parameters of their own,
+// like in Map(String, Decimal(9, 2)) or Map(String, Map(String, String)).
+func cutTypes(s string) (before, after string, found bool) {
+	var (
+		depth  int
+		quoted bool
+	)
+	for i := 0; i < len(s); i++ {
+		switch c := s[i]; {
+		case quoted && c == '\\':
+			i++ // skip escaped character
+		case c == '\'':
+			quoted = !quoted
+		case quoted:
+		case c == '(':
+			depth++
+		case c == ')':
+			depth--
+		case c == ',' && depth == 0:
+			return s[:i], s[i+1:], true
+		}
+	}
+	return s, "", false
 }
